@@ -1071,6 +1071,89 @@ theorem other_hooks_do_not_hide_sends (env : Env) (c : Chain) (hs : List OtherHo
     obtain ⟨c1, ok⟩ := r
     cases ok <;> rfl
 
+/-! ### "destination is known" ⇔ a client with EXACTLY this name exists -/
+
+/-- the client lookup of the model is exact-string: creating a client named `n` makes `n` — and no other byte string,
+in particular no case variant, prefix or extension of it — a known destination -/
+theorem client_lookup_exact (cfg : Cfg) (c : Chain) (n d : Bytes) (hd : d ≠ n) :
+    (createClient cfg c n).1.clients d = c.clients d := by
+  unfold createClient
+  repeat' split
+  all_goals first | rfl | exact upd_other _ _ _ _ hd
+
+theorem hookP_clients {env : Env} (logs : List Log) {c : Chain} : (hookP env c logs).1.clients = c.clients := by
+  induction logs generalizing c with
+  | nil => rfl
+  | cons l ls ih =>
+    cases l with
+    | other => simpa [hookP] using ih
+    | unknownEvent => rfl
+    | badData => rfl
+    | sent p =>
+      simp only [hookP]
+      cases hs : sendPacket env c p with
+      | error e => rfl
+      | ok c1 =>
+        have := (one_commitment_send hs).2.2.2.2.2.2.2.2.2.1
+        simp only; rw [ih, this]
+
+theorem hookP_unknown_dest_fails {env : Env} (logs : List Log) {c : Chain} {p : Packet} (hp : Log.sent p ∈ logs)
+    (hcl : c.clients p.dst = false) : (hookP env c logs).2 = false := by
+  induction logs generalizing c with
+  | nil => cases hp
+  | cons l ls ih =>
+    cases l with
+    | other =>
+      simp only [hookP]
+      exact ih (by simpa using hp) hcl
+    | unknownEvent => rfl
+    | badData => rfl
+    | sent q =>
+      simp only [hookP]
+      cases hs : sendPacket env c q with
+      | error e => rfl
+      | ok c1 =>
+        simp only
+        have hcl1 : c1.clients p.dst = false := by
+          rw [(one_commitment_send hs).2.2.2.2.2.2.2.2.2.1]; exact hcl
+        rcases List.mem_cons.mp hp with h | h
+        · injection h with h; subst h
+          have := (sendPacket_ok hs).2.2.1
+          rw [hcl] at this; cases this
+        · exact ih h hcl1
+
+/-- **A send to a destination without a client of exactly that name changes nothing**: a transaction whose receipt
+contains a genuine `PacketSent` for `p.dst` while no client named `p.dst` exists is not committed — no commitment, no
+counter on either side, no escrow, whatever else the receipt contains and however close `p.dst` is to the name of an
+existing client. -/
+theorem send_unknown_dest_changes_nothing (env : Env) (c : Chain) (v : Bool) (logs : List Log) (p : Packet)
+    (hp : Log.sent p ∈ logs) (hcl : c.clients p.dst = false) :
+    (applyTx env c v logs).1 = c ∧ (applyTx env c v logs).2 ≠ .ok := by
+  have hne : (applyTx env c v logs).2 ≠ .ok := by
+    unfold applyTx
+    cases v with
+    | false => simp
+    | true =>
+      simp only [Bool.not_true, Bool.false_eq_true, ↓reduceIte]
+      obtain ⟨e, he⟩ := evmCommit_eq c logs
+      have hf := hookP_unknown_dest_fails (env := env) logs (c := evmCommit c logs) hp (by rw [he]; exact hcl)
+      generalize hookP env (evmCommit c logs) logs = r at *
+      obtain ⟨c1, ok⟩ := r
+      simp only at hf; subst hf
+      simp
+  exact ⟨failed_send_noop env c v logs hne, hne⟩
+
+/-- **Sequence lines are independent of other names**: a successful send to `d` moves no counter (chain side or
+contract side) and touches no commitment of any `d' ≠ d` — byte-string inequality, so case variants, prefixes and
+extensions of `d` are other lines. -/
+theorem sequence_lines_independent_of_other_names {env : Env} {c c' : Chain} {p : Packet}
+    (h : sendPacket env c p = .ok c') (d' : Bytes) (hd : d' ≠ p.dst) :
+    chainNext c' d' = chainNext c d' ∧ contractNext c' d' = contractNext c d' ∧
+    (∀ i, c'.commits (d', i) = c.commits (d', i)) ∧ c'.clients = c.clients := by
+  obtain ⟨_, _, _, hk, _, _, hf, _, _, hcl, _⟩ := one_commitment_send h
+  refine ⟨by simp [chainNext, (hf d' hd).1], by simp [contractNext, (hf d' hd).2], fun i => ?_, hcl⟩
+  exact hk (d', i) (by intro e; injection e with e1 _; exact hd e1)
+
 /-! ### witnesses and non-vacuity -/
 
 section Examples
@@ -1167,6 +1250,21 @@ example :
     let r := applyTxChain envId c0 [inPlace] true [.sent (pk nB 1), .other]
     r.2 = .ok ∧ r.1.commits (nB, 1) = none ∧ chainNext r.1 nB = 1 ∧ contractNext r.1 nB = 1 ∧ r.1.escrow (0, nB) = 10 ∧
     (applyTx envId c0 true [.sent (pk nB 1), .other]).1.commits (nB, 1) ≠ none := by decide
+
+/-- near misses of a known name are unknown: with clients `B` (0x42) and `C`, sends to `b` (0x62, the other case), to
+the empty prefix-extension `B-` and to `B/` fail and change nothing; with clients under BOTH spellings the two lines are
+independent -/
+example :
+    let nb : Bytes := [98]
+    let cBoth := (createClient { cbOnCctx := true } c0 nb).1
+    (applyTx envId c0 true [.sent (pk nb 1)]).2 = .hookFailed ∧
+    (applyTx envId c0 true [.sent (pk [66, 45] 1)]).2 = .hookFailed ∧
+    (applyTx envId c0 true [.sent (pk [66, 47] 1)]).2 = .hookFailed ∧
+    (applyTx envId c0 true [.sent (pk [66, 32] 1)]).2 = .hookFailed ∧
+    (applyTx envId cBoth true [.sent (pk nb 1)]).2 = .ok ∧
+    chainNext (applyTx envId cBoth true [.sent (pk nb 1)]).1 nb = 2 ∧
+    chainNext (applyTx envId cBoth true [.sent (pk nb 1)]).1 nB = 1 ∧
+    contractNext (applyTx envId cBoth true [.sent (pk nb 1)]).1 nB = 1 := by decide
 
 end Examples
 
